@@ -1,10 +1,17 @@
 (* Proofs for Props/C05.v: the checker model [check] against the declarative typing relation [has_type].
 
-   Findings (details and machine-checked counterexamples at the end of the file):
-   - [fenv_ok] does not force a monomorphic entry to have a variable-free result, so for hand-built tables
-     C05_inferred_ok and C05_sound are false; they are proved here under [mono_ret_ground fe].
-   - a type variable in map-key position of a polymorphic result type makes the model panic ([mk_map]) where the
-     rules assign a type; C05_complete is proved under [ret_keys_ok fe] in addition. *)
+   Structure
+   - Stage 1: the tables ([builtin_table_ok], [register_mono], [register_poly]).
+   - Stage 2: inferFun.  [rf P r1 r2] says that the fuelled computation r1 returns the fuel-free answer r2 or runs out
+     of fuel (the latter only when P, "fuel too small", holds).  [apply_subst] refines [asub], [unify] on a simple
+     pattern against a variable-free type refines the fuel-free matcher [mtch] ([unify_refines]), and [infer_fun]
+     refines [infer_spec] ([infer_rf]): the pseudo function binds s_i := params_i, t := ret ([step1], [step2]), the
+     parameters are matched against the arguments in that (non-ground) substitution, and t is read back.
+     [spec_sound] / [spec_complete] / [spec_total] relate [infer_spec] + [params_match] to [instantiates].
+   - Stage 3: [check_inv] (soundness + the inferred type is variable-free, well formed and simple), [check_comp]
+     (completeness: from some fuel on the checker returns one fixed result of a type equal to the declarative one).
+
+   The two clauses of [fenv_ok] that go beyond [sig_ok] are both needed; see the examples at the end of the file. *)
 From Coq Require Import List String Ascii Bool Arith NArith ZArith Lia Permutation DecimalString DecimalN DecimalPos.
 From Yae Require Import Base.Sexp Model.Ty Gen.Generated Model.Unify Model.TySpec Model.Lexer Model.Literal Model.Cst
   Model.Check Model.CheckSpec Proofs.TyInd Proofs.ExprInd Proofs.C17Proofs.
@@ -1755,27 +1762,709 @@ Proof.
     intros [s [rt HI]]. apply Hna. exists s, rt. eapply instantiates_transfer; eauto.
 Qed.
 
-Lemma resolve_go_complete fresh pk args : forall sigs sg s rt',
+(* ------------------------------------------------------------------------------------------------ *)
+(* Stage 3b: soundness of the checker                                                                *)
+(* ------------------------------------------------------------------------------------------------ *)
+
+Lemma cmapM_Forall2 {X Y} (f : X -> cres Y) l ys : cmapM f l = COk ys -> Forall2 (fun x y => f x = COk y) l ys.
+Proof.
+  revert ys. induction l as [|a r IH]; intros ys H; simpl in H.
+  - inversion H. constructor.
+  - destruct (f a) as [y| |] eqn:E; simpl in H; try discriminate H.
+    destruct (cmapM f r) as [ys'| |] eqn:E2; simpl in H; try discriminate H.
+    inversion H; subst. constructor; [exact E|apply IH; reflexivity].
+Qed.
+
+Lemma Forall2_cmapM {X Y} (f : X -> cres Y) l ys : Forall2 (fun x y => f x = COk y) l ys -> cmapM f l = COk ys.
+Proof.
+  induction 1 as [|a y r ys' E _ IH]; simpl; [reflexivity|]. rewrite E. simpl.
+  change (cmapM f r) with (cmapM f r) in IH. rewrite IH. reflexivity.
+Qed.
+
+Lemma ty_ok_list t : ty_ok t = true -> ty_ok (TList t) = true.
+Proof. intros H. exact H. Qed.
+
+Lemma ty_ok_list_inv t : ty_ok (TList t) = true -> ty_ok t = true.
+Proof. intros H. exact H. Qed.
+
+Lemma ty_ok_map k v : is_primitive k = true -> ty_ok k = true -> ty_ok v = true -> ty_ok (TMap k v) = true.
+Proof.
+  intros Hp Hk Hv. destruct (ty_ok_parts _ Hk) as [A [B C]]. destruct (ty_ok_parts _ Hv) as [A' [B' C']].
+  apply ty_ok_intro; simpl; rewrite ?A, ?A', ?B, ?B', ?C, ?C'; try reflexivity.
+  unfold keyable. rewrite Hp. reflexivity.
+Qed.
+
+Lemma ty_ok_map_inv k v : ty_ok (TMap k v) = true -> ty_ok k = true /\ ty_ok v = true.
+Proof.
+  intros H. destruct (ty_ok_parts _ H) as [A [B C]]. simpl in A, C.
+  apply andb_true_iff in A. apply andb_true_iff in C. apply wf_map in B.
+  split; apply ty_ok_intro; tauto.
+Qed.
+
+Lemma ty_ok_obj_field fs n t : ty_ok (TObj fs) = true -> assoc n fs = Some t -> ty_ok t = true.
+Proof.
+  intros H Ha. apply assoc_In in Ha. destruct (ty_ok_parts _ H) as [A [B C]]. simpl in A, C.
+  rewrite forallb_forall in A, C. apply wf_obj in B. destruct B as [_ B].
+  apply ty_ok_intro; [apply (A _ Ha)|eauto|apply (C _ Ha)].
+Qed.
+
+Lemma ty_ok_obj fs : nodupb (map fst fs) = true -> (forall n t, In (n, t) fs -> ty_ok t = true) -> ty_ok (TObj fs) = true.
+Proof.
+  intros Hnd H. apply ty_ok_intro; simpl.
+  - apply forallb_forall. intros [n t] Hin. simpl. destruct (ty_ok_parts _ (H n t Hin)) as [A _]. exact A.
+  - rewrite Hnd. simpl. apply forallb_forall. intros [n t] Hin. simpl. destruct (ty_ok_parts _ (H n t Hin)) as [_ [B _]]. exact B.
+  - apply forallb_forall. intros [n t] Hin. simpl. destruct (ty_ok_parts _ (H n t Hin)) as [_ [_ C]]. exact C.
+Qed.
+
+Lemma tenv_assoc G n t : tenv_ok G = true -> assoc n G = Some t -> ty_ok t = true.
+Proof.
+  unfold tenv_ok. intros H Ha. rewrite forallb_forall in H. apply (H _ (assoc_In _ _ _ Ha)).
+Qed.
+
+Definition is_ident (e : expr) : bool := match e with EIdent _ _ => true | _ => false end.
+
+Lemma check_call_other fe G fuel fresh p col callee args :
+  is_ident callee = false ->
+  check fe G fuel fresh (ECall p col callee args) =
+  let+ aargs := cmapM (check fe G fuel fresh) args in
+  let+ (ac, ft) := check fe G fuel fresh callee in
+  match ft with
+  | TFun fname fps fret =>
+      let+ o := try_infer fuel fresh (mkSig fname fps fret false) (map snd aargs) in
+      match o with
+      | Some (ps, rt) =>
+          if params_match ps (map snd aargs)
+          then COk (ACall col "" (-1)%Z (TFun fname ps rt) ac (map fst aargs), rt)
+          else CErr
+      | None => CErr
+      end
+  | _ => CErr
+  end.
+Proof. destruct callee; intros H; try discriminate H; reflexivity. Qed.
+
+Lemma check_call_ident fe G fuel fresh p col pn n args :
+  check fe G fuel fresh (ECall p col (EIdent pn n) args) =
+  let+ aargs := cmapM (check fe G fuel fresh) args in
+  let+ (key, idx, ps, rt) := resolve fe fuel fresh (rstr n) (map snd aargs) in
+  if params_match ps (map snd aargs)
+  then COk (ACall col key idx (TFun (rstr n) ps rt) (AIdent (p_col pn) (rstr n)) (map fst aargs), rt)
+  else CErr.
+Proof. reflexivity. Qed.
+
+Section Sound.
+  Variables (fe : fenv) (G : tenv) (fuel : nat) (fresh : N).
+  Hypothesis Hfe : fenv_ok fe = true.
+  Hypothesis HG : tenv_ok G = true.
+  Hypothesis Hfr : fresh_ok fe fresh.
+
+  Definition inv_stmt (e : expr) : Prop :=
+    forall a T, check fe G fuel fresh e = COk (a, T) -> has_type fe G e T /\ ty_ok T = true.
+
+  Lemma args_inv args : Forall inv_stmt args -> forall aargs,
+    cmapM (check fe G fuel fresh) args = COk aargs ->
+    Forall2 (has_type fe G) args (map snd aargs) /\ forallb ty_ok (map snd aargs) = true.
+  Proof.
+    induction 1 as [|e r He Hr IH]; intros aargs H; simpl in H.
+    - inversion H; subst. split; [constructor|reflexivity].
+    - destruct (check fe G fuel fresh e) as [[a t]| |] eqn:E; simpl in H; try discriminate H.
+      destruct (cmapM (check fe G fuel fresh) r) as [ys| |] eqn:E2; simpl in H; try discriminate H.
+      inversion H; subst. destruct (He a t E) as [H1 H2]. destruct (IH ys Logic.eq_refl) as [H3 H4].
+      simpl. rewrite H2, H4. split; [constructor; assumption|reflexivity].
+  Qed.
+
+  Lemma check_inv : forall e, inv_stmt e.
+  Proof.
+    induction e using expr_ind'; intros a T HC.
+    - (* str *) simpl in HC. destruct (str_value t) as [v|] eqn:E; inversion HC; subst.
+      split; [eapply T_str; eauto|reflexivity].
+    - simpl in HC. destruct (num_parse t) as [v|] eqn:E; inversion HC; subst.
+      split; [eapply T_num; eauto|reflexivity].
+    - simpl in HC. inversion HC; subst. split; [constructor|reflexivity].
+    - simpl in HC. inversion HC; subst. split; [constructor|reflexivity].
+    - (* list *)
+      destruct es as [|e0 rest].
+      { simpl in HC. inversion HC; subst. split; [constructor|reflexivity]. }
+      inversion H as [|? ? He0 Hrest]; subst.
+      simpl in HC.
+      destruct (check fe G fuel fresh e0) as [[a0 t0]| |] eqn:E0; simpl in HC; try discriminate HC.
+      match type of HC with cbind ?c _ = _ => destruct c as [ars| |] eqn:E1 end; simpl in HC; try discriminate HC.
+      inversion HC; subst. destruct (He0 a0 t0 E0) as [H1 H2].
+      split; [|exact H2]. apply T_list; [exact H1|].
+      apply cmapM_Forall2 in E1. clear -E1 Hrest.
+      induction E1 as [|x y r ys Hx _ IH]; [constructor|].
+      inversion Hrest as [|? ? Hx' Hr']; subst. constructor; [|apply IH; assumption].
+      destruct (check fe G fuel fresh x) as [[ax tx]| |] eqn:Ex; simpl in Hx; try discriminate Hx.
+      unfold type_assert in Hx. destruct (ty_eqb t0 tx) eqn:Et; simpl in Hx; try discriminate Hx.
+      exists tx. split; [apply (Hx' ax tx Ex)|exact Et].
+    - (* map *)
+      destruct kvs as [|[k0 v0] rest].
+      { simpl in HC. inversion HC; subst. split; [constructor|reflexivity]. }
+      inversion H as [|? ? [Hk0 Hv0] Hrest]; subst. simpl in Hk0, Hv0.
+      simpl in HC.
+      destruct (check fe G fuel fresh k0) as [[ak0 kt]| |] eqn:Ek; simpl in HC; try discriminate HC.
+      destruct (is_primitive kt) eqn:Ep; simpl in HC; [|discriminate HC].
+      destruct (check fe G fuel fresh v0) as [[av0 vt]| |] eqn:Ev; simpl in HC; try discriminate HC.
+      match type of HC with cbind ?c _ = _ => destruct c as [ars| |] eqn:E1 end; simpl in HC; try discriminate HC.
+      inversion HC; subst. destruct (Hk0 _ _ Ek) as [K1 K2]. destruct (Hv0 _ _ Ev) as [V1 V2].
+      split; [|apply ty_ok_map; assumption]. apply T_map; try assumption.
+      apply cmapM_Forall2 in E1. clear -E1 Hrest.
+      induction E1 as [|x y r ys Hx _ IH]; [constructor|].
+      inversion Hrest as [|? ? [Hx1 Hx2] Hr']; subst. constructor; [|apply IH; assumption].
+      destruct (check fe G fuel fresh (fst x)) as [[a1 t1]| |] eqn:Ex1; simpl in Hx; try discriminate Hx.
+      unfold type_assert in Hx. destruct (ty_eqb kt t1) eqn:Et1; simpl in Hx; try discriminate Hx.
+      destruct (check fe G fuel fresh (snd x)) as [[a2 t2]| |] eqn:Ex2; simpl in Hx; try discriminate Hx.
+      destruct (ty_eqb vt t2) eqn:Et2; simpl in Hx; try discriminate Hx.
+      exists t1, t2. repeat split; [apply (Hx1 _ _ Ex1)|exact Et1|apply (Hx2 _ _ Ex2)|exact Et2].
+    - (* obj *)
+      simpl in HC.
+      match type of HC with cbind ?c _ = _ => destruct c as [afs| |] eqn:E1 end; simpl in HC; try discriminate HC.
+      destruct (nodupb (map (fun x => fst (fst x)) afs)) eqn:End; simpl in HC; [|discriminate HC].
+      inversion HC; subst. clear HC. apply cmapM_Forall2 in E1.
+      assert (Forall2 (fun f t => has_type fe G (snd f) t) fs (map snd afs) /\
+              map (fun f => rstr (fst f)) fs = map (fun x => fst (fst x)) afs /\
+              forall n t, In (n, t) (map (fun x => (fst (fst x), snd x)) afs) -> ty_ok t = true) as [F [Enames Hok]].
+      { clear End. induction E1 as [|x y r ys Hx _ IH]; [repeat split; [constructor|intros n t []]|].
+        inversion H as [|? ? Hx' Hr']; subst. destruct (IH Hr') as [F [En Hok]].
+        destruct (check fe G fuel fresh (snd x)) as [[ax tx]| |] eqn:Ex; simpl in Hx; try discriminate Hx.
+        inversion Hx; subst. destruct (Hx' _ _ Ex) as [X1 X2]. simpl. repeat split.
+        - constructor; assumption.
+        - f_equal. exact En.
+        - intros n t [E|Hin]; [inversion E; subst; exact X2|eauto]. }
+      split.
+      + replace (map (fun x => (fst (fst x), snd x)) afs)
+          with (combine (map (fun f => rstr (fst f)) fs) (map snd afs)).
+        * apply T_obj; [exact F|]. rewrite Enames. exact End.
+        * rewrite Enames. clear. induction afs as [|x r IH]; [reflexivity|]. simpl. f_equal. exact IH.
+      + apply ty_ok_obj; [|exact Hok]. rewrite map_map. simpl. exact End.
+    - (* ident *)
+      simpl in HC. destruct (reserved (rstr n)) eqn:Er; [discriminate HC|].
+      destruct (assoc (rstr n) G) as [t|] eqn:Ea; inversion HC; subst.
+      split; [apply T_ident; assumption|eapply tenv_assoc; eauto].
+    - (* call *)
+      destruct (is_ident e) eqn:Eid.
+      + destruct e; try discriminate Eid. rewrite check_call_ident in HC.
+        destruct (cmapM (check fe G fuel fresh) args) as [aargs| |] eqn:E1; simpl in HC; try discriminate HC.
+        destruct (args_inv args H aargs E1) as [F Hok].
+        destruct (resolve fe fuel fresh (rstr name) (map snd aargs)) as [[[[key idx] ps] rt]| |] eqn:ER;
+          simpl in HC; try discriminate HC.
+        destruct (params_match ps (map snd aargs)) eqn:EM; [|discriminate HC]. inversion HC; subst. clear HC.
+        rewrite resolve_unfold in ER.
+        destruct (assoc (mono_key (rstr name) (map snd aargs)) (f_mono fe)) as [sg|] eqn:Emono.
+        * inversion ER; subst. destruct (fenv_mono fe _ sg Hfe Emono) as [Hs Hsf].
+          destruct (sig_ok_parts _ Hs) as [_ [R1 R2]].
+          split; [eapply T_call_mono; eauto|].
+          apply ty_ok_intro; try assumption. simpl in Hsf. apply andb_true_iff in Hsf. tauto.
+        * destruct (assoc (poly_key (rstr name) (List.length (map snd aargs))) (f_poly fe)) as [sigs|] eqn:Epoly;
+            [|discriminate ER].
+          assert (forall sg, In sg sigs -> psig_ok fresh sg) as HS by (intros sg Hin; eapply psig_ok_intro; eauto).
+          destruct (resolve_go_sound _ _ _ _ _ _ _ _ _ _ HS Hok ER) as [_ [K [sg [s [FA I]]]]].
+          split; [eapply T_call_poly; eauto|exact K].
+      + rewrite check_call_other in HC by assumption.
+        destruct (cmapM (check fe G fuel fresh) args) as [aargs| |] eqn:E1; simpl in HC; try discriminate HC.
+        destruct (check fe G fuel fresh e) as [[ac ft]| |] eqn:E2; simpl in HC; try discriminate HC.
+        destruct (IHe ac ft E2) as [_ K]. destruct (ty_ok_parts _ K) as [_ [_ C]].
+        destruct ft; try discriminate HC. discriminate C.
+    - (* sub *)
+      simpl in HC.
+      destruct (check fe G fuel fresh e1) as [[av vt]| |] eqn:E1; simpl in HC; try discriminate HC.
+      destruct (IHe1 _ _ E1) as [V1 V2].
+      destruct vt; try discriminate HC.
+      + destruct (check fe G fuel fresh e2) as [[ai it]| |] eqn:E2; simpl in HC; try discriminate HC.
+        unfold type_assert in HC. destruct (ty_eqb it TNum) eqn:Et; simpl in HC; try discriminate HC.
+        inversion HC; subst. destruct (IHe2 _ _ E2) as [I1 I2].
+        split; [eapply T_sub_list; eauto|exact V2].
+      + destruct (check fe G fuel fresh e2) as [[ai it]| |] eqn:E2; simpl in HC; try discriminate HC.
+        unfold type_assert in HC. destruct (ty_eqb it vt1) eqn:Et; simpl in HC; try discriminate HC.
+        inversion HC; subst. destruct (IHe2 _ _ E2) as [I1 I2].
+        split; [eapply T_sub_map; eauto|]. apply ty_ok_map_inv in V2. tauto.
+    - (* member *)
+      simpl in HC.
+      destruct (check fe G fuel fresh e) as [[ao ot]| |] eqn:E1; simpl in HC; try discriminate HC.
+      destruct (IHe _ _ E1) as [O1 O2].
+      destruct ot; try discriminate HC.
+      destruct (assoc (rstr n) fs) as [ft|] eqn:Ea; [|discriminate HC].
+      destruct (index_of (rstr n) fs) as [idx|]; inversion HC; subst.
+      split; [eapply T_member; eauto|eapply ty_ok_obj_field; eauto].
+    - discriminate HC.
+    - discriminate HC.
+    - discriminate HC.
+    - discriminate HC.
+  Qed.
+End Sound.
+
+Lemma check_sound : forall fe G fuel fresh e a T,
+  fenv_ok fe = true -> tenv_ok G = true -> fresh_ok fe fresh ->
+  check fe G fuel fresh e = COk (a, T) -> has_type fe G e T.
+Proof. intros fe G fuel fresh e a T H1 H2 H3 H. exact (proj1 (check_inv fe G fuel fresh H1 H2 H3 e a T H)). Qed.
+
+Lemma inferred_ok : forall fe G fuel fresh e a T,
+  fenv_ok fe = true -> tenv_ok G = true -> fresh_ok fe fresh ->
+  check fe G fuel fresh e = COk (a, T) -> slot_free T = true /\ wf_ty T = true.
+Proof.
+  intros fe G fuel fresh e a T H1 H2 H3 H.
+  destruct (ty_ok_parts _ (proj2 (check_inv fe G fuel fresh H1 H2 H3 e a T H))) as [A [B _]]. auto.
+Qed.
+
+Lemma ill_typed_rejected : forall fe G fuel fresh e,
+  fenv_ok fe = true -> tenv_ok G = true -> fresh_ok fe fresh ->
+  (forall T, ~ has_type fe G e T) -> forall a T, check fe G fuel fresh e <> COk (a, T).
+Proof. intros fe G fuel fresh e H1 H2 H3 Hn a T H. apply (Hn T). eapply check_sound; eauto. Qed.
+
+(* ------------------------------------------------------------------------------------------------ *)
+(* Stage 3c: completeness of the checker                                                             *)
+(* ------------------------------------------------------------------------------------------------ *)
+
+Lemma ok_refl t : ty_ok t = true -> ty_eqb t t = true.
+Proof. intros H. apply eq_refl. destruct (ty_ok_parts _ H) as [_ [B _]]. exact B. Qed.
+
+Lemma ok_sym a b : ty_ok a = true -> ty_ok b = true -> ty_eqb a b = true -> ty_eqb b a = true.
+Proof.
+  intros Ha Hb. destruct (ty_ok_parts _ Ha) as [_ [A _]]. destruct (ty_ok_parts _ Hb) as [_ [B _]].
+  apply eqb_sym_imp; assumption.
+Qed.
+
+Lemma canon_norm : forall t, simple t = true -> canon t = norm t.
+Proof.
+  induction t using ty_ind'; intros Hs; try reflexivity; try discriminate Hs.
+  - simpl in *. f_equal. auto.
+  - simpl in *. apply andb_true_iff in Hs. destruct Hs. f_equal; auto.
+  - simpl. f_equal. f_equal. apply map_ext_in. intros [n t] Hin. simpl. f_equal.
+    rewrite Forall_forall in H. apply (H (n, t) Hin). eapply simple_obj_in; eauto.
+  - simpl in *. f_equal. auto.
+Qed.
+
+Lemma canon_eq a b : ty_ok a = true -> ty_ok b = true -> ty_eqb a b = true -> canon a = canon b.
+Proof.
+  intros Ha Hb E. destruct (ty_ok_parts _ Ha) as [_ [A1 A2]]. destruct (ty_ok_parts _ Hb) as [_ [B1 B2]].
+  rewrite !canon_norm by assumption. apply eq_structural; assumption.
+Qed.
+
+Lemma mono_key_eq name a b : forallb ty_ok a = true -> forallb ty_ok b = true -> eqb_list a b = true ->
+  mono_key name a = mono_key name b.
+Proof.
+  intros Ha Hb E. unfold mono_key. simpl.
+  assert (map canon a = map canon b) as EE; [|rewrite EE; reflexivity].
+  revert b Ha Hb E. induction a as [|x r IH]; intros [|y s] Ha Hb E; simpl in *; try discriminate E; [reflexivity|].
+  apply andb_true_iff in Ha. apply andb_true_iff in Hb. apply andb_true_iff in E. destruct Ha, Hb, E.
+  f_equal; [apply canon_eq; assumption|apply IH; assumption].
+Qed.
+
+Lemma assoc_index_of {X} n (l : list (string * X)) x : assoc n l = Some x -> exists i, index_of n l = Some i.
+Proof.
+  induction l as [|[k v] r IH]; simpl; intros H; [discriminate H|].
+  destruct (String.eqb n k); [eauto|]. destruct (IH H) as [i E]. rewrite E. simpl. eauto.
+Qed.
+
+Lemma eqb_primitive a b : ty_eqb a b = true -> is_primitive b = true -> is_primitive a = true.
+Proof. destruct a, b; simpl; intros H1 H2; try discriminate H1; try discriminate H2; reflexivity. Qed.
+
+Lemma instantiates_ok s params ret args rt :
+  simple ret = true -> wf_ty ret = true -> no_var_key ret = true ->
+  instantiates s params ret args rt -> ty_ok rt = true.
+Proof.
+  intros R1 R2 R3 [_ [Hg [Hw [_ [E Hsf]]]]]. subst rt. apply ty_ok_intro; [exact Hsf| |].
+  - apply subst_wf_nvk; try assumption. intros n u Hu. eapply wf_assoc; eauto.
+  - apply subst_simple; [exact R1|]. intros n u Hu. eapply ground_assoc; eauto.
+Qed.
+
+Lemma F2_length {X Y} (R : X -> Y -> Prop) l1 l2 : Forall2 R l1 l2 -> List.length l1 = List.length l2.
+Proof. induction 1; simpl; auto. Qed.
+
+Lemma fields_rel_combine (R : ty -> ty -> Prop) : forall names l1 l2,
+  NoDup names -> List.length names = List.length l2 -> Forall2 R l1 l2 ->
+  fields_rel R (combine names l1) (combine names l2).
+Proof.
+  induction names as [|n names IH]; intros l1 l2 Hnd Hl HF; [intros k t []|].
+  destruct HF as [|a b r1 r2 Hab HF]; [discriminate Hl|].
+  inversion Hnd as [|? ? Hnotin Hnd']; subst. simpl in Hl.
+  intros k t [E|Hin].
+  - inversion E; subst. exists b. simpl. rewrite String.eqb_refl. auto.
+  - simpl. destruct (String.eqb_spec k n) as [E|E].
+    + subst k. exfalso. apply Hnotin. eapply in_combine_l; eauto.
+    + apply (IH r1 r2 Hnd'); [lia|exact HF|exact Hin].
+Qed.
+
+(* inversion of the typing rules, by expression form *)
+Section Inversions.
+  Variables (fe : fenv) (G : tenv).
+
+  Lemma inv_list p es T : has_type fe G (EList p es) T ->
+    (es = [] /\ T = TList TBot) \/
+    exists e0 rest t0, es = e0 :: rest /\ T = TList t0 /\ has_type fe G e0 t0 /\
+      Forall (fun e => exists t, has_type fe G e t /\ ty_eqb t0 t = true) rest.
+  Proof. inversion 1; subst; [left; auto|right; eauto 10]. Qed.
+
+  Lemma inv_map p kvs T : has_type fe G (EMap p kvs) T ->
+    (kvs = [] /\ T = TMap TBot TBot) \/
+    exists k0 v0 rest kt vt, kvs = (k0, v0) :: rest /\ T = TMap kt vt /\
+      has_type fe G k0 kt /\ is_primitive kt = true /\ has_type fe G v0 vt /\
+      Forall (fun kv => exists t1 t2, has_type fe G (fst kv) t1 /\ ty_eqb kt t1 = true /\
+                                      has_type fe G (snd kv) t2 /\ ty_eqb vt t2 = true) rest.
+  Proof. inversion 1; subst; [left; auto|right; eauto 12]. Qed.
+
+  Lemma inv_obj p fs T : has_type fe G (EObj p fs) T ->
+    exists ts, T = TObj (combine (map (fun f => rstr (fst f)) fs) ts) /\
+      Forall2 (fun f t => has_type fe G (snd f) t) fs ts /\ nodupb (map (fun f => rstr (fst f)) fs) = true.
+  Proof. inversion 1; subst; eauto. Qed.
+
+  Lemma inv_ident p n T : has_type fe G (EIdent p n) T -> reserved (rstr n) = false /\ assoc (rstr n) G = Some T.
+  Proof. inversion 1; subst; auto. Qed.
+
+  Lemma inv_call p col callee args T : has_type fe G (ECall p col callee args) T ->
+    exists pn n argtys, callee = EIdent pn n /\ Forall2 (has_type fe G) args argtys /\
+      ((exists sg, mono_selected fe (rstr n) argtys = Some sg /\ tys_eqb (s_params sg) argtys = true /\ T = s_ret sg) \/
+       (exists sigs sg s, mono_selected fe (rstr n) argtys = None /\
+          assoc (poly_key (rstr n) (List.length argtys)) (f_poly fe) = Some sigs /\
+          first_applicable sigs argtys sg /\ instantiates s (s_params sg) (s_ret sg) argtys T)).
+  Proof. inversion 1; subst; exists pn, n, argtys; repeat split; auto; [left|right]; eauto 10. Qed.
+
+  Lemma inv_sub p col v i T : has_type fe G (ESub p col v i) T ->
+    (exists it, has_type fe G v (TList T) /\ has_type fe G i it /\ ty_eqb it TNum = true) \/
+    (exists kt it, has_type fe G v (TMap kt T) /\ has_type fe G i it /\ ty_eqb it kt = true).
+  Proof. inversion 1; subst; [left|right]; eauto. Qed.
+
+  Lemma inv_member p col o fname fpos T : has_type fe G (EMember p col o fname fpos) T ->
+    exists fs, has_type fe G o (TObj fs) /\ assoc (rstr fname) fs = Some T.
+  Proof. inversion 1; subst; eauto. Qed.
+End Inversions.
+
+
+Lemma resolve_go_fixed fresh pk args : forall sigs sg s rt',
   (forall sg, In sg sigs -> psig_ok fresh sg) -> forallb ty_ok args = true ->
   first_applicable sigs args sg -> instantiates s (s_params sg) (s_ret sg) args rt' ->
-  exists fuel0, forall fuel, fuel0 <= fuel -> forall i,
-    exists i' ps rt, resolve_go fuel fresh pk args sigs i = COk (pk, i', ps, rt) /\
-                     params_match ps args = true /\ ty_eqb rt rt' = true.
+  exists fuel0 k ps rt, params_match ps args = true /\ ty_eqb rt rt' = true /\
+    forall fuel, fuel0 <= fuel -> forall i,
+      resolve_go fuel fresh pk args sigs i = COk (pk, (i + k)%Z, ps, rt).
 Proof.
   intros sigs sg s rt' Hs Ha HF. revert Hs.
   induction HF as [sg rest args Happ|sg rest args sg' Hna Hf IH]; intros Hs HI.
   - pose proof (Hs sg (or_introl Logic.eq_refl)) as Hsg.
-    exists (infer_bound fresh (s_params sg) (s_ret sg) args). intros fuel Hfuel i.
     destruct (spec_opt_complete fresh sg args s rt' Hsg Ha HI) as [ps [rt [E [M T]]]].
-    exists i, ps, rt. simpl. rewrite (try_infer_big fuel fresh sg args Hsg Ha Hfuel). simpl. rewrite E, M. auto.
+    exists (infer_bound fresh (s_params sg) (s_ret sg) args), 0%Z, ps, rt. repeat split; try assumption.
+    intros fuel Hfuel i. simpl. rewrite (try_infer_big fuel fresh sg args Hsg Ha Hfuel). simpl.
+    rewrite E, M, Z.add_0_r. reflexivity.
   - pose proof (Hs sg (or_introl Logic.eq_refl)) as Hsg.
-    destruct (IH Ha (fun sg0 Hin => Hs sg0 (or_intror Hin)) HI) as [fuel1 H1].
-    exists (Nat.max (infer_bound fresh (s_params sg) (s_ret sg) args) fuel1). intros fuel Hfuel i.
-    destruct (H1 fuel (Nat.le_trans _ _ _ (Nat.le_max_r _ _) Hfuel) (i + 1)%Z) as [i' [ps [rt [E [M T]]]]].
-    exists i', ps, rt. simpl.
-    rewrite (try_infer_big fuel fresh sg args Hsg Ha (Nat.le_trans _ _ _ (Nat.le_max_l _ _) Hfuel)). simpl.
-    destruct (spec_opt fresh sg args) as [[ps' rt2]|] eqn:ES; [|auto].
-    destruct (params_match ps' args) eqn:EM; [|auto].
+    destruct (IH Ha (fun sg0 Hin => Hs sg0 (or_intror Hin)) HI) as [fuel1 [k [ps [rt [M [T H1]]]]]].
+    exists (Nat.max (infer_bound fresh (s_params sg) (s_ret sg) args) fuel1), (1 + k)%Z, ps, rt.
+    repeat split; try assumption. intros fuel Hfuel i.
+    replace (i + (1 + k))%Z with (i + 1 + k)%Z by lia. simpl.
+    rewrite (try_infer_big fuel fresh sg args Hsg Ha) by lia. simpl.
+    destruct (spec_opt fresh sg args) as [[ps' rt2]|] eqn:ES; [|apply H1; lia].
+    destruct (params_match ps' args) eqn:EM; [|apply H1; lia].
     exfalso. apply Hna. destruct (spec_opt_sound fresh sg args ps' rt2 Hsg Ha ES EM) as [[s' HI'] _].
     exists s', rt2. exact HI'.
 Qed.
+
+Section Complete.
+  Variables (fe : fenv) (G : tenv) (fresh : N).
+  Hypothesis Hfe : fenv_ok fe = true.
+  Hypothesis HG : tenv_ok G = true.
+  Hypothesis Hfr : fresh_ok fe fresh.
+
+  (* from some fuel on, the checker returns one fixed result, of a type equal to T' *)
+  Definition chk (e : expr) (T' : ty) : Prop :=
+    exists fuel0 a T, ty_eqb T T' = true /\ ty_ok T = true /\
+      forall fuel, fuel0 <= fuel -> check fe G fuel fresh e = COk (a, T).
+
+  Definition comp_stmt (e : expr) : Prop := forall T', has_type fe G e T' -> ty_ok T' = true /\ chk e T'.
+
+  Lemma chk_intro f0 e a T T' :
+    (forall fuel, f0 <= fuel -> check fe G fuel fresh e = COk (a, T)) -> ty_eqb T T' = true -> chk e T'.
+  Proof.
+    intros H E. exists f0, a, T. repeat split; try assumption.
+    exact (proj2 (check_inv fe G f0 fresh Hfe HG Hfr e a T (H f0 (Nat.le_refl _)))).
+  Qed.
+
+  Lemma args_complete args : Forall comp_stmt args -> forall argtys, Forall2 (has_type fe G) args argtys ->
+    forallb ty_ok argtys = true /\
+    exists fuel0 aargs, eqb_list (map snd aargs) argtys = true /\ forallb ty_ok (map snd aargs) = true /\
+      forall fuel, fuel0 <= fuel -> cmapM (check fe G fuel fresh) args = COk aargs.
+  Proof.
+    induction 1 as [|e r He Hr IH]; intros argtys HF; inversion HF as [|? t ? ts Ht Hts]; subst.
+    - split; [reflexivity|]. exists 0, []. auto.
+    - destruct (He t Ht) as [K1 [f1 [a [T [E2 [E3 H1]]]]]]. destruct (IH ts Hts) as [K2 [f2 [aargs [E5 [E6 H2]]]]].
+      split; [simpl; rewrite K1, K2; reflexivity|].
+      exists (Nat.max f1 f2), ((a, T) :: aargs). simpl. rewrite E2, E3, E5, E6. repeat split.
+      intros fuel Hf. rewrite H1 by lia. simpl.
+      change ((fix go (l : list expr) : cres (list (aexpr * ty)) :=
+                 match l with
+                 | [] => COk []
+                 | x :: r0 => let+ y := check fe G fuel fresh x in let+ ys := go r0 in COk (y :: ys)
+                 end) r) with (cmapM (check fe G fuel fresh) r).
+      rewrite H2 by lia. reflexivity.
+  Qed.
+
+  Lemma cmapM_cons {X Y} (f : X -> cres Y) x r :
+    cmapM f (x :: r) = let+ y := f x in let+ ys := cmapM f r in COk (y :: ys).
+  Proof. reflexivity. Qed.
+
+  Lemma obj_complete fs : Forall (fun f => comp_stmt (snd f)) fs -> forall ts,
+    Forall2 (fun f t => has_type fe G (snd f) t) fs ts ->
+    Forall (fun t => ty_ok t = true) ts /\
+    exists fuel0 afs,
+      map (fun x => fst (fst x)) afs = map (fun f => rstr (fst f)) fs /\
+      Forall2 (fun tc t => ty_eqb tc t = true) (map snd afs) ts /\
+      forall fuel, fuel0 <= fuel ->
+        cmapM (fun f => let+ (a, t) := check fe G fuel fresh (snd f) in COk (rstr (fst f), a, t)) fs = COk afs.
+  Proof.
+    induction 1 as [|f r He Hr IH]; intros ts HF; inversion HF as [|? t ? ts' Ht Hts]; subst.
+    - split; [constructor|]. exists 0, []. repeat split; constructor.
+    - destruct (He t Ht) as [K1 [f1 [a [T [E2 [E3 H1]]]]]]. destruct (IH ts' Hts) as [K2 [f2 [afs [E5 [E6 H2]]]]].
+      split; [constructor; assumption|].
+      exists (Nat.max f1 f2), ((rstr (fst f), a, T) :: afs). repeat split.
+      + simpl. f_equal. exact E5.
+      + simpl. constructor; assumption.
+      + intros fuel Hf. rewrite cmapM_cons, H1 by lia. simpl. rewrite H2 by lia. reflexivity.
+  Qed.
+
+  Lemma list_rest t0 t0c rest :
+    ty_ok t0 = true -> ty_ok t0c = true -> ty_eqb t0c t0 = true ->
+    Forall comp_stmt rest -> Forall (fun e => exists t, has_type fe G e t /\ ty_eqb t0 t = true) rest ->
+    exists f1 ars, forall fuel, f1 <= fuel ->
+      cmapM (fun x => let+ (a, t) := check fe G fuel fresh x in let+ _ := type_assert t0c t in COk a) rest = COk ars.
+  Proof.
+    intros K0 K0c E0 Hc Hr. induction Hr as [|x r [t [Hx Et]] _ IH]; [exists 0, []; reflexivity|].
+    inversion Hc as [|? ? Hx' Hc']; subst. destruct (IH Hc') as [f2 [ars H2]].
+    destruct (Hx' t Hx) as [Kt [f1 [a [tc [E1 [Ktc H1]]]]]].
+    exists (Nat.max f1 f2), (a :: ars). intros fuel Hf. rewrite cmapM_cons, H1 by lia. simpl.
+    unfold type_assert. rewrite (eqb_trans t0c t0 tc); [simpl|exact E0|].
+    - rewrite H2 by lia. reflexivity.
+    - eapply eqb_trans; [exact Et|]. apply ok_sym; assumption.
+  Qed.
+
+  Lemma map_rest kt ktc vt vtc rest :
+    ty_ok kt = true -> ty_ok ktc = true -> ty_eqb ktc kt = true ->
+    ty_ok vt = true -> ty_ok vtc = true -> ty_eqb vtc vt = true ->
+    Forall (fun kv => comp_stmt (fst kv) /\ comp_stmt (snd kv)) rest ->
+    Forall (fun kv => exists t1 t2, has_type fe G (fst kv) t1 /\ ty_eqb kt t1 = true /\
+                                    has_type fe G (snd kv) t2 /\ ty_eqb vt t2 = true) rest ->
+    exists f1 ars, forall fuel, f1 <= fuel ->
+      cmapM (fun kv => let+ (ak, t1) := check fe G fuel fresh (fst kv) in let+ _ := type_assert ktc t1 in
+                       let+ (av, t2) := check fe G fuel fresh (snd kv) in let+ _ := type_assert vtc t2 in
+                       COk (ak, av)) rest = COk ars.
+  Proof.
+    intros Kk Kkc Ek Kv Kvc Ev Hc Hr.
+    induction Hr as [|x r [t1 [t2 [Hx1 [Et1 [Hx2 Et2]]]]] _ IH]; [exists 0, []; reflexivity|].
+    inversion Hc as [|? ? [Hx1' Hx2'] Hc']; subst. destruct (IH Hc') as [f3 [ars H3]].
+    destruct (Hx1' t1 Hx1) as [Kt1 [f1 [a1 [tc1 [A1 [A2 H1]]]]]].
+    destruct (Hx2' t2 Hx2) as [Kt2 [f2 [a2 [tc2 [B1 [B2 H2]]]]]].
+    exists (Nat.max f1 (Nat.max f2 f3)), ((a1, a2) :: ars). intros fuel Hf.
+    rewrite cmapM_cons, H1 by lia. simpl. unfold type_assert.
+    rewrite (eqb_trans ktc kt tc1); [simpl|exact Ek|eapply eqb_trans; [exact Et1|apply ok_sym; assumption]].
+    rewrite H2 by lia. simpl.
+    rewrite (eqb_trans vtc vt tc2); [simpl|exact Ev|eapply eqb_trans; [exact Et2|apply ok_sym; assumption]].
+    rewrite H3 by lia. reflexivity.
+  Qed.
+
+  Lemma check_list_cons fuel p e0 rest :
+    check fe G fuel fresh (EList p (e0 :: rest)) =
+    let+ (a0, t0) := check fe G fuel fresh e0 in
+    let+ ars := cmapM (fun x => let+ (a, t) := check fe G fuel fresh x in let+ _ := type_assert t0 t in COk a) rest in
+    COk (AList (TList t0) (a0 :: ars), TList t0).
+  Proof. reflexivity. Qed.
+
+  Lemma check_map_cons fuel p k0 v0 rest :
+    check fe G fuel fresh (EMap p ((k0, v0) :: rest)) =
+    let+ (ak0, kt) := check fe G fuel fresh k0 in
+    if negb (is_primitive kt) then CErr else
+    let+ (av0, vt) := check fe G fuel fresh v0 in
+    let+ ars := cmapM (fun kv =>
+                         let+ (ak, t1) := check fe G fuel fresh (fst kv) in let+ _ := type_assert kt t1 in
+                         let+ (av, t2) := check fe G fuel fresh (snd kv) in let+ _ := type_assert vt t2 in
+                         COk (ak, av)) rest in
+    COk (AMap (TMap kt vt) ((ak0, av0) :: ars), TMap kt vt).
+  Proof. reflexivity. Qed.
+
+  Lemma check_obj_eq fuel p fs :
+    check fe G fuel fresh (EObj p fs) =
+    let+ afs := cmapM (fun f => let+ (a, t) := check fe G fuel fresh (snd f) in COk (rstr (fst f), a, t)) fs in
+    let names := map (fun x => fst (fst x)) afs in
+    if negb (nodupb names) then CErr else
+    let t := TObj (map (fun x => (fst (fst x), snd x)) afs) in
+    COk (AObj t (map (fun x => (fst (fst x), snd (fst x))) afs), t).
+  Proof. reflexivity. Qed.
+
+  Lemma check_comp : forall e, comp_stmt e.
+  Proof.
+    induction e using expr_ind'; intros T' HT.
+    - (* str *) inversion HT; subst. split; [reflexivity|].
+      apply (chk_intro 0 _ (AStr v) TStr); [intros fuel _; simpl|reflexivity].
+      match goal with E : str_value _ = _ |- _ => rewrite E end. reflexivity.
+    - inversion HT; subst. split; [reflexivity|].
+      apply (chk_intro 0 _ (ANum t n) TNum); [intros fuel _; simpl|reflexivity].
+      match goal with E : num_parse _ = _ |- _ => rewrite E end. reflexivity.
+    - inversion HT; subst. split; [reflexivity|]. apply (chk_intro 0 _ (ATime t) TTime); reflexivity.
+    - inversion HT; subst. split; [reflexivity|]. apply (chk_intro 0 _ (ABool b) TBool); reflexivity.
+    - (* list *)
+      apply inv_list in HT. destruct HT as [[E1 E2]|[e0 [rest [t0 [E1 [E2 [H0 Hrest]]]]]]]; subst.
+      { split; [reflexivity|]. apply (chk_intro 0 _ (AList (TList TBot) []) (TList TBot)); reflexivity. }
+      inversion H as [|? ? He0 Hr]; subst.
+      destruct (He0 t0 H0) as [K0 [f0 [a0 [t0c [E0 [K0c C0]]]]]].
+      split; [exact K0|].
+      destruct (list_rest t0 t0c rest K0 K0c E0 Hr Hrest) as [f1 [ars C1]].
+      apply (chk_intro (Nat.max f0 f1) _ (AList (TList t0c) (a0 :: ars)) (TList t0c)); [|exact E0].
+      intros fuel Hf. rewrite check_list_cons, C0 by lia. simpl. rewrite C1 by lia. reflexivity.
+    - (* map *)
+      apply inv_map in HT.
+      destruct HT as [[E1 E2]|[k0 [v0 [rest [kt [vt [E1 [E2 [Hk0 [Hp [Hv0 Hrest]]]]]]]]]]]; subst.
+      { split; [reflexivity|]. apply (chk_intro 0 _ (AMap (TMap TBot TBot) []) (TMap TBot TBot)); reflexivity. }
+      inversion H as [|? ? [Hk Hv] Hr]; subst. simpl in Hk, Hv.
+      destruct (Hk kt Hk0) as [Kk [fk [ak [ktc [Ek [Kkc Ck]]]]]].
+      destruct (Hv vt Hv0) as [Kv [fv [av [vtc [Ev [Kvc Cv]]]]]].
+      split; [apply ty_ok_map; assumption|].
+      destruct (map_rest kt ktc vt vtc rest Kk Kkc Ek Kv Kvc Ev Hr Hrest) as [f1 [ars C1]].
+      apply (chk_intro (Nat.max fk (Nat.max fv f1)) _ (AMap (TMap ktc vtc) ((ak, av) :: ars)) (TMap ktc vtc)).
+      + intros fuel Hf. rewrite check_map_cons, Ck by lia. simpl. rewrite (eqb_primitive _ _ Ek Hp). simpl.
+        rewrite Cv by lia. simpl. rewrite C1 by lia. reflexivity.
+      + simpl. rewrite Ek, Ev. reflexivity.
+    - (* obj *)
+      apply inv_obj in HT. destruct HT as [ts [E [HF Hnd]]]. subst T'.
+      destruct (obj_complete fs H ts HF) as [Kts [f0 [afs [E2 [E3 C0]]]]].
+      pose proof (F2_length _ _ _ HF) as Hlen.
+      assert (ty_ok (TObj (combine (map (fun f => rstr (fst f)) fs) ts)) = true) as KT.
+      { apply ty_ok_obj.
+        - rewrite map_fst_combine by (rewrite map_length; exact Hlen). exact Hnd.
+        - intros n t Hin. apply in_combine_r in Hin. rewrite Forall_forall in Kts. auto. }
+      split; [exact KT|].
+      apply (chk_intro f0 _ (AObj (TObj (map (fun x => (fst (fst x), snd x)) afs))
+                                  (map (fun x => (fst (fst x), snd (fst x))) afs))
+                       (TObj (map (fun x => (fst (fst x), snd x)) afs))).
+      + intros fuel Hf. rewrite check_obj_eq, C0 by lia. simpl. rewrite E2, Hnd. reflexivity.
+      + replace (map (fun x => (fst (fst x), snd x)) afs)
+          with (combine (map (fun f => rstr (fst f)) fs) (map snd afs)).
+        2:{ rewrite <- E2. clear. induction afs as [|x r IH]; [reflexivity|]. simpl. f_equal. exact IH. }
+        apply ty_eqb_obj_spec. split.
+        * rewrite !combine_length, !map_length. rewrite <- Hlen.
+          apply F2_length in E3. rewrite map_length in E3. rewrite E3, Hlen. reflexivity.
+        * apply fields_rel_combine; [apply nodupb_NoDup; exact Hnd|rewrite map_length; exact Hlen|exact E3].
+    - (* ident *)
+      apply inv_ident in HT. destruct HT as [Hr Ha]. split; [eapply tenv_assoc; eauto|].
+      apply (chk_intro 0 _ (AIdent (p_col p) (rstr n)) T').
+      + intros fuel _. simpl. rewrite Hr, Ha. reflexivity.
+      + apply ok_refl. eapply tenv_assoc; eauto.
+    - (* call *)
+      apply inv_call in HT. destruct HT as [pn [n [argtys [Ee [HF HC]]]]]. subst e.
+      destruct (args_complete args H argtys HF) as [Kargs [f0 [aargs [E2 [E3 C0]]]]].
+      destruct HC as [[sg [Hm [Hp ET]]]|[sigs [sg [s [Hm [Hpoly [HFA HI]]]]]]].
+      + subst T'. unfold mono_selected in Hm. destruct (fenv_mono fe _ sg Hfe Hm) as [Hs Hsf].
+        destruct (sig_ok_parts _ Hs) as [_ [R1 R2]].
+        assert (ty_ok (s_ret sg) = true) as KT.
+        { apply ty_ok_intro; try assumption. simpl in Hsf. apply andb_true_iff in Hsf. tauto. }
+        split; [exact KT|].
+        eapply (chk_intro f0); [|apply ok_refl; exact KT].
+        intros fuel Hf. rewrite check_call_ident, C0 by lia. simpl. rewrite resolve_unfold.
+        rewrite (mono_key_eq (rstr n) (map snd aargs) argtys E3 Kargs E2), Hm. simpl.
+        rewrite params_match_eq, (eqb_list_trans' (s_params sg) argtys (map snd aargs)); [reflexivity| |].
+        * rewrite <- tys_eqb_eq. exact Hp.
+        * apply eqb_list_sym'; assumption.
+      + unfold mono_selected in Hm.
+        assert (forall sg, In sg sigs -> psig_ok fresh sg) as HS by (intros sg' Hin; eapply psig_ok_intro; eauto).
+        assert (In sg sigs) as Hsg.
+        { clear -HFA. induction HFA; [left; reflexivity|right; assumption]. }
+        destruct (HS sg Hsg) as [Hs [Hk _]]. destruct (sig_ok_parts _ Hs) as [_ [R1 R2]].
+        split; [eapply instantiates_ok; eauto|].
+        pose proof (eqb_list_sym' _ _ E3 Kargs E2) as E2'.
+        pose proof (eqb_list_length _ _ E2) as Hlen.
+        destruct (resolve_go_fixed fresh (poly_key (rstr n) (List.length argtys)) (map snd aargs) sigs sg s T' HS E3)
+          as [f1 [k [ps [rt [M [ET C1]]]]]].
+        { eapply first_applicable_transfer; eauto. }
+        { eapply instantiates_transfer; eauto. }
+        eapply (chk_intro (Nat.max f0 f1)); [|exact ET].
+        intros fuel Hf. rewrite check_call_ident, C0 by lia. simpl. rewrite resolve_unfold.
+        rewrite (mono_key_eq (rstr n) (map snd aargs) argtys E3 Kargs E2), Hm, Hlen, Hpoly.
+        rewrite C1 by lia. simpl. rewrite M. reflexivity.
+    - (* sub *)
+      apply inv_sub in HT. destruct HT as [[it [Hv [Hi Et]]]|[kt [it [Hv [Hi Et]]]]].
+      + destruct (IHe1 _ Hv) as [Kv [fv [av [vt [Ev [Kvc Cv]]]]]].
+        destruct (IHe2 _ Hi) as [Ki [fi [ai [itc [Ei [Kic Ci]]]]]].
+        split; [exact Kv|].
+        destruct vt; simpl in Ev; try discriminate Ev.
+        eapply (chk_intro (Nat.max fv fi)); [|exact Ev].
+        intros fuel Hf. simpl. rewrite Cv by lia. simpl. rewrite Ci by lia. simpl.
+        unfold type_assert. rewrite (eqb_trans itc it TNum Ei Et). reflexivity.
+      + destruct (IHe1 _ Hv) as [Kv [fv [av [vt [Ev [Kvc Cv]]]]]].
+        destruct (IHe2 _ Hi) as [Ki [fi [ai [itc [Ei [Kic Ci]]]]]].
+        destruct (ty_ok_map_inv _ _ Kv) as [Kkt KT].
+        split; [exact KT|].
+        destruct vt; simpl in Ev; try discriminate Ev.
+        apply andb_true_iff in Ev. destruct Ev as [Ev1 Ev2].
+        destruct (ty_ok_map_inv _ _ Kvc) as [Kk1 _].
+        eapply (chk_intro (Nat.max fv fi)); [|exact Ev2].
+        intros fuel Hf. simpl. rewrite Cv by lia. simpl. rewrite Ci by lia. simpl.
+        unfold type_assert. rewrite (eqb_trans itc kt vt1); [reflexivity| |apply ok_sym; assumption].
+        eapply eqb_trans; eauto.
+    - (* member *)
+      apply inv_member in HT. destruct HT as [fs [Ho Ha]].
+      destruct (IHe _ Ho) as [Ko [fo [ao [ot [Eo [Koc Co]]]]]].
+      pose proof (ty_ok_obj_field _ _ _ Ko Ha) as KT. split; [exact KT|].
+      destruct ot; try (simpl in Eo; discriminate Eo).
+      pose proof (ok_sym _ _ Koc Ko Eo) as Eo'. apply ty_eqb_obj_spec in Eo'. destruct Eo' as [_ Hrel].
+      destruct (Hrel _ _ (assoc_In _ _ _ Ha)) as [tc [Hac Etc]].
+      destruct (assoc_index_of _ _ _ Hac) as [idx Hidx].
+      eapply (chk_intro fo).
+      + intros fuel Hf. simpl. rewrite Co by lia. simpl. rewrite Hac, Hidx. reflexivity.
+      + apply ok_sym; [exact KT|eapply ty_ok_obj_field; eauto|exact Etc].
+    - inversion HT.
+    - inversion HT.
+    - inversion HT.
+    - inversion HT.
+  Qed.
+End Complete.
+
+Lemma check_complete : forall fe G fresh e T',
+  fenv_ok fe = true -> tenv_ok G = true -> fresh_ok fe fresh ->
+  has_type fe G e T' ->
+  exists fuel0, forall fuel, (fuel0 <= fuel)%nat ->
+    exists a T, check fe G fuel fresh e = COk (a, T) /\ ty_eqb T T' = true.
+Proof.
+  intros fe G fresh e T' H1 H2 H3 HT.
+  destruct (check_comp fe G fresh H1 H2 H3 e T' HT) as [_ [f0 [a [T [E [_ C]]]]]].
+  exists f0. intros fuel Hf. exists a, T. split; [apply C; exact Hf|exact E].
+Qed.
+
+(* ------------------------------------------------------------------------------------------------ *)
+(* Why [fenv_ok] needs its two extra clauses (hand-built tables that satisfy [sig_ok] everywhere)     *)
+(* ------------------------------------------------------------------------------------------------ *)
+
+(* 1. a monomorphic entry whose result is a type variable: `f()` is accepted with the type 'a (so the inferred type
+      is not variable-free), and `g(f(), 1)` is accepted although no ground instantiation of g's parameters exists *)
+Example mono_entry_must_be_ground :
+  let p0 := pos_unknown in
+  let fe := mkFenv [(mono_key "f" [], mkSig "f" [] (TVar "a") false)]
+                   [(poly_key "g" 2, [mkSig "g" [TVar "b"; TNum] TNum false])] in
+  let e1 := ECall p0 0 (EIdent p0 [102%N]) [] in
+  let e2 := ECall p0 0 (EIdent p0 [103%N]) [e1; ENum p0 [49%N]] in
+  forallb (fun ks => sig_ok (snd ks)) (f_mono fe) = true /\
+  (exists a, check fe [] 50 1000 e1 = COk (a, TVar "a")) /\
+  (exists a, check fe [] 50 1000 e2 = COk (a, TNum)).
+Proof. vm_compute. repeat split; eexists; reflexivity. Qed.
+
+(* 2. a type variable in map-key position of a polymorphic result: h : ('a) -> map['a, num] applied to [1] is
+      typable by the rules (result map[list[num], num], not a well-formed type) but the implementation panics
+      (types.Map asserts a keyable key): the model returns CErr for every fuel that is enough.  The same panic
+      also hits an EARLIER overload that is not applicable (k1) and hides a later applicable one (k2). *)
+Example poly_result_needs_no_var_key :
+  let p0 := pos_unknown in
+  let fe := mkFenv [] [(poly_key "h" 1, [mkSig "h" [TVar "a"] (TMap (TVar "a") TNum) false])] in
+  let e := ECall p0 0 (EIdent p0 [104%N]) [EList p0 [ENum p0 [49%N]]] in
+  forallb (fun ks => forallb sig_ok (snd ks)) (f_poly fe) = true /\
+  check fe [] 50 1000 e = CErr /\ check fe [] 500 1000 e = CErr.
+Proof. vm_compute. repeat split. Qed.
+
+Example earlier_overload_panics :
+  let p0 := pos_unknown in
+  let k1 := mkSig "k" [TVar "a"; TMap (TVar "a") TNum] (TMap (TVar "a") TNum) false in
+  let k2 := mkSig "k" [TVar "c"; TVar "d"] TNum false in
+  let e := ECall p0 0 (EIdent p0 [107%N]) [EList p0 [ENum p0 [49%N]]; ESub p0 0 (EList p0 []) (ENum p0 [49%N])] in
+  forallb sig_ok [k1; k2] = true /\
+  check (mkFenv [] [(poly_key "k" 2, [k1; k2])]) [] 50 1000 e = CErr /\
+  (exists a, check (mkFenv [] [(poly_key "k" 2, [k2])]) [] 50 1000 e = COk (a, TNum)).
+Proof. vm_compute. repeat split. eexists; reflexivity. Qed.
+
+Print Assumptions builtin_table_ok.
+Print Assumptions check_sound.
+Print Assumptions check_complete.
+Print Assumptions ill_typed_rejected.
+Print Assumptions inferred_ok.
+Print Assumptions register_mono.
+Print Assumptions register_poly.
